@@ -41,6 +41,11 @@ func (app *Application) changeParameters(ctx *api.Context, msg any, apply bool) 
 	if err = params.SanityCheck(); err != nil {
 		return nil, fmt.Errorf("cometbft/scheduler: failed to validate consensus parameters: %w", err)
 	}
+	// An election that must elect more validators than it may elect always fails, and a failed
+	// validator election is fatal.
+	if params.MaxValidators > 0 && params.MinValidators > params.MaxValidators {
+		return nil, fmt.Errorf("cometbft/scheduler: minimum number of validators exceeds the maximum number of validators")
+	}
 
 	// Apply changes.
 	if apply {
